@@ -894,6 +894,14 @@ class Interp:
             return cls.enum_canon[vals[i]]
         raise RaiseSig(self.make_exc("ValueError", site=node))
 
+    def ev_NamedExpr(self, n, fr):
+        v = self.ev(n.value, fr)
+        f = fr
+        while getattr(f, "is_comp", False) and f.parent is not None:
+            f = f.parent
+        self.assign(n.target, v, f)
+        return v
+
     def ev_Lambda(self, n, fr):
         fn = ast.FunctionDef(name="<lambda>", args=n.args, body=[ast.Return(value=n.body)], decorator_list=[], lineno=n.lineno, col_offset=0)
         return FuncVal(fn, (fr.func.qualname if fr.func else "") + ".<lambda>", fr.func.module if fr.func else "?", fr, [], [], None)
